@@ -27,6 +27,11 @@ Conforms(e) ==
           /\ ev[Len(ev)].k = "read" /\ ev[Len(ev)].got = 0
           /\ SumGot(Reads(ev)) = e.len
           /\ \A i \in readIdx : ev[i].got = e.chunk \/ nextRead(i) = Len(ev) + 1 \/ ev[nextRead(i)].got = 0   \* only the last chunk is short
+     ELSE IF e.ep = "stream"
+     THEN \* the streaming interface: updates of the one format only, the pieces add up to the input
+          /\ readIdx = {}
+          /\ \A j \in DOMAIN ev : ev[j].k = "update" /\ ev[j].f \in F
+          /\ SumGot(ev) = e.len
      ELSE \* hash_data: one update per format with the whole input
           /\ readIdx = {}
           /\ {ev[j].f : j \in DOMAIN ev} = F /\ Len(ev) = Cardinality(F)
